@@ -1,0 +1,75 @@
+//! Verification seams, compiled only with `--cfg chrono_verif`.
+//!
+//! Nothing in here is reachable in a normal build. The module gives an external checker
+//! read-only access to the time zone reader and its two lookups (with the reader's `Ok`/`Err`
+//! visible), and lets it substitute the clock consulted by the `Local` cache.
+
+use std::sync::atomic::{AtomicU64, Ordering};
+use std::time::{Duration, SystemTime};
+
+use super::tz_info::TimeZone;
+use crate::{MappedLocalTime, NaiveDateTime};
+
+/// A time zone as read by the TZif / `TZ` string reader.
+#[derive(Debug, Clone)]
+pub struct VerifZone(TimeZone);
+
+impl VerifZone {
+    /// Read a zone from the contents of a TZif file.
+    pub fn from_tzif(bytes: &[u8]) -> Result<VerifZone, String> {
+        TimeZone::from_tz_data(bytes).map(VerifZone).map_err(|e| format!("{:?}", e))
+    }
+
+    /// Read a zone the way `Local` does for a given value of the `TZ` variable.
+    pub fn from_tz(tz: Option<&str>) -> Result<VerifZone, String> {
+        TimeZone::local(tz).map(VerifZone).map_err(|e| format!("{:?}", e))
+    }
+
+    /// UTC offset in effect at a Unix time.
+    pub fn offset_at(&self, unix_time: i64) -> Result<i32, String> {
+        match self.0.find_local_time_type(unix_time) {
+            Ok(ltt) => Ok(ltt.offset()),
+            Err(e) => Err(format!("{:?}", e)),
+        }
+    }
+
+    /// The derived `Debug` rendering of the local time type in effect at a Unix time.
+    pub fn type_debug_at(&self, unix_time: i64) -> Result<String, String> {
+        match self.0.find_local_time_type(unix_time) {
+            Ok(ltt) => Ok(format!("{:?}", ltt)),
+            Err(e) => Err(format!("{:?}", e)),
+        }
+    }
+
+    /// UTC offset candidates for a wall clock time.
+    pub fn offsets_for_local(
+        &self,
+        local: NaiveDateTime,
+    ) -> Result<MappedLocalTime<i32>, String> {
+        match self.0.find_local_time_type_from_local(local) {
+            Ok(r) => Ok(r.map(|ltt| ltt.offset())),
+            Err(e) => Err(format!("{:?}", e)),
+        }
+    }
+
+    /// The derived `Debug` rendering of the zone (transitions, types, leap seconds, rule).
+    pub fn debug(&self) -> String {
+        format!("{:?}", self.0)
+    }
+}
+
+/// Mock clock in nanoseconds since the Unix epoch; `0` means "not installed".
+static MOCK_NOW_NANOS: AtomicU64 = AtomicU64::new(0);
+
+/// Install (`Some(nanoseconds since the Unix epoch)`) or remove (`None`) the mock clock.
+pub fn set_mock_now(nanos: Option<u64>) {
+    MOCK_NOW_NANOS.store(nanos.unwrap_or(0), Ordering::SeqCst);
+}
+
+/// The mock time if one is installed, `real` otherwise.
+pub(super) fn now_or(real: SystemTime) -> SystemTime {
+    match MOCK_NOW_NANOS.load(Ordering::SeqCst) {
+        0 => real,
+        n => SystemTime::UNIX_EPOCH + Duration::from_nanos(n),
+    }
+}
